@@ -143,7 +143,9 @@ def check(run):
     # ---- B. rectangles x spellings x sheets ------------------------------------------------------
     sheets_pool = [('book.xlsx', 'Sheet1', ''), ('book.xlsx', 'Sheet2', ''), ('Other Book.xlsx', 'Sheet1', ''),
                    ('book.xlsx', 'My Sheet', ''), ('book.xlsx', 'data_2.x', ''), ('b.xlsx', 'S', 'sub/dir'),
-                   ('book.xlsx', 'Été', ''), ('book.xlsx', "It's", ''), ('book.xlsx', 'a-b (c)', '')]
+                   ('book.xlsx', 'Été', ''), ('book.xlsx', "It's", ''), ('book.xlsx', 'a-b (c)', ''),
+                   # workbook names that begin with digits (a bare number is a link index, these are file names)
+                   ('2024.xlsx', 'Sheet1', 'dirA'), ('2024.xlsx', 'Sheet1', 'dirB'), ('1q.xlsx', 'S', ''), ('3 d.xlsx', 'Sheet1', '')]
     rects = []
     rows_pool = [1, 2, 9, 10, 99, 100, 1000, 65536, MAXROW - 1]
 
